@@ -34,7 +34,10 @@ func writeReplay(eng *Engine, dir, pid, name string, st *oblStatus, fr *FuncResu
 	}
 	if st.FailRes != nil {
 		rf.Solver, rf.Answer, rf.SolverOutput, rf.Tried = st.FailRes.Solver, st.FailRes.Answer, st.FailRes.Output, st.FailRes.Tried
-		if st.FailRes.Model != nil && st.FailInst != nil {
+		if st.FailInst != nil && st.FailInst.Kind == "callers" {
+			// a precondition on the calling context, decided on the program text: there is no input to replay
+			rf.Replay["reason"] = "structural obligation (opt calledfrom): " + st.Goal
+		} else if st.FailRes.Model != nil && st.FailInst != nil {
 			for _, v := range st.FailInst.Vars {
 				if val, ok := st.FailRes.Model[v.Term]; ok {
 					rf.Inputs[v.Name] = val
